@@ -297,7 +297,35 @@ def r18h(ctx):
                   loc=ctx.loc("pyrex.ray_tracing", st[0] if st else fn))
 
 
+def r18i(ctx):
+    repo = ctx.repo
+    ctx.rule("R18i", "LayeredRayTracer: a duplicate end point is cut from path, depths and directions alike (same slice in the same branch); the launch-angle conversion of "
+             "_get_radial_distance runs exactly for paths that start above their end, and only a *direct* downward-launched one is impossible", expected=2, kind="N")
+    so = repo.member(LT, "solutions")
+    groups = {}
+    for n in ast.walk(so):
+        if isinstance(n, ast.Assign) and isinstance(n.value, ast.Subscript) and isinstance(n.targets[0], ast.Name) and u(n.value.value) == n.targets[0].id \
+                and u(n.value.slice) in ("1:", ":-1"):
+            groups.setdefault(id(parent(n)), []).append((n.targets[0].id, u(n.value.slice), n))
+    bad = [g for g in groups.values() if len({s_ for _, s_, _ in g}) != 1]
+    ctx.check(len(groups) >= 2 and not bad, "R18i", f"{LT}.solutions", "the lists describing one path are trimmed with the same slice", str([[(a, b) for a, b, _ in g] for g in groups.values()]),
+              key_detail="symmetric trimming", loc=ctx.loc(repo.cls(LT).module, so))
+    rd = repo.member(LT, "_get_radial_distance")
+    conv = [n for n in ast.walk(rd) if isinstance(n, ast.Assign) and u(n.targets[0]) == "angle" and "arcsin" in u(n.value)]
+    ok = len(conv) == 1
+    detail = ""
+    if ok:
+        g = [(u(t).replace(" ", ""), pol) for t, pol in guards(conv[0], stop=rd)]
+        detail = str(g)
+        ok = ("zs[0]>zs[-1]", True) in g and not any("len(zs)" in t and pol for t, pol in g)
+        nan = [n for n in ast.walk(rd) if isinstance(n, ast.Return) and u(n.value) == "np.nan" and any(u(t).replace(" ", "") == "zs[0]>zs[-1]" and pol for t, pol in guards(n, stop=rd))]
+        ok = ok and len(nan) == 1 and {t for t, pol in [(u(t).replace(" ", ""), pol) for t, pol in guards(nan[0], stop=rd)] if pol} >= {"zs[0]>zs[-1]", "len(zs)==2andangle<np.pi/2"}
+    ctx.check(ok, "R18i", f"{LT}._get_radial_distance", "angle is carried to the lower end whenever zs[0] > zs[-1] (direct or turning); nan only for a direct path launched downwards", detail,
+              key_detail="angle conversion guard", loc=ctx.loc(repo.cls(LT).module, rd))
+
+
 def run(ctx):
+    ctx.guard(r18i)
     ctx.guard(r18h)
     ctx.guard(r18g)
     ctx.guard(r18f)
@@ -310,6 +338,10 @@ def run(ctx):
 
 SELFTEST = {
     "faults": [
+        {"name": "directions trimmed at the wrong end", "file": "pyrex/custom/layered_ice/ray_tracing.py", "old": "                    directions = directions[:-1]", "new": "                    directions = directions[1:]",
+         "rule": "R18i"},
+        {"name": "angle conversion only for direct paths", "file": "pyrex/custom/layered_ice/ray_tracing.py", "old": "            if zs[0]>zs[-1]:\n                if len(zs)==2 and angle<np.pi/2:",
+         "new": "            if len(zs)==2 and zs[0]>zs[-1]:\n                if angle<np.pi/2:", "rule": "R18i"},
         {"name": "-1**k for (-1)**k", "file": "pyrex/ray_tracing.py", "old": "            final_direction = initial_direction * (-1)**self._reflections", "new": "            final_direction = initial_direction * -1**self._reflections",
          "rule": "R18h"},
         {"name": "reflection points inherit the dtype of the source", "file": "pyrex/ray_tracing.py", "old": "            points = np.zeros((self._reflections+2, 3))",
